@@ -1,12 +1,12 @@
 #!/bin/bash
 if [ -n "$(git -C /repo status --porcelain)" ]; then echo "refusing: /repo has uncommitted changes (they would be reverted)"; exit 2; fi
-# usage: seed_confirm.sh <property> <scratch-worktree> <N> <seed-id>
+# usage: seed_confirm.sh <property> <scratch-worktree> <N> <seed-id> [<mutant-dir>]   (mutant-dir defaults to <scratch-worktree>/mutants/<N>)
 # Confirms a sub-agent's mutant in the scratch worktree (builds, suite passes, demo fails with / passes without),
 # stores it as /verif/seeded/<seed-id>/ and runs the property's quick check on /repo with the patch applied.
 set -u
 prop=$1; wt=$2; n=$3; sid=$4
 export GOFLAGS=-mod=mod GOPROXY=off GOSUMDB=off GOTOOLCHAIN=local
-m=$wt/mutants/$n
+m=${5:-$wt/mutants/$n}
 [ -f $m/patch.diff ] || { echo "no patch"; exit 2; }
 demo=$m/demo_test.go
 dir=$(head -1 $demo | sed -n 's,^// dir: *,,p'); 
